@@ -1,0 +1,78 @@
+//go:build verif
+
+package ruleguard
+
+// Verification hooks (build tag `verif`): thin, add-only wrappers that let an
+// external harness drive unexported pieces of the engine. Not part of the API.
+
+import (
+	"go/ast"
+	"go/token"
+	"go/types"
+
+	"github.com/quasilyte/gogrep"
+	"github.com/quasilyte/gogrep/nodetag"
+)
+
+// VerifTruncateText exposes truncateText.
+func VerifTruncateText(s []byte, maxLen int) []byte { return truncateText(s, maxLen) }
+
+// VerifVisit is one visit of the AST walker together with the walk context at that moment.
+type VerifVisit struct {
+	Node        ast.Node
+	Tag         nodetag.Value
+	Deadcode    bool
+	PathLen     int
+	Parent      ast.Node
+	CurrentFunc *ast.FuncDecl
+}
+
+// VerifWalk runs the real astWalker over root and reports every visit.
+func VerifWalk(root ast.Node, info *types.Info, initialDeadcode bool, cb func(VerifVisit)) {
+	ctx := &RunContext{Types: info}
+	params := &filterParams{ctx: ctx, deadcode: initialDeadcode}
+	path := newNodePath()
+	params.nodePath = path
+	var w astWalker
+	w.nodePath = path
+	w.filterParams = params
+	w.Walk(root, func(n ast.Node, tag nodetag.Value) {
+		cb(VerifVisit{
+			Node:        n,
+			Tag:         tag,
+			Deadcode:    params.deadcode,
+			PathLen:     path.Len(),
+			Parent:      path.Parent(),
+			CurrentFunc: params.currentFunc,
+		})
+	})
+	if path.Len() != 0 {
+		panic("verif: node path is not empty after the walk")
+	}
+	if params.deadcode != initialDeadcode {
+		cb(VerifVisit{Node: nil, Deadcode: params.deadcode, PathLen: -1})
+	}
+}
+
+// VerifRenderMessage runs renderMessage over a hand-made match.
+func VerifRenderMessage(fset *token.FileSet, src []byte, msg string, m gogrep.MatchData, truncate bool, truncateLen int) string {
+	rr := &rulesRunner{
+		ctx:         &RunContext{Fset: fset},
+		src:         src,
+		truncateLen: truncateLen,
+	}
+	return rr.renderMessage(msg, matchData{match: m}, truncate)
+}
+
+// VerifNodeText runs nodeText with the given file contents.
+func VerifNodeText(fset *token.FileSet, src []byte, n ast.Node) []byte {
+	rr := &rulesRunner{ctx: &RunContext{Fset: fset}, src: src}
+	return rr.nodeText(n)
+}
+
+// VerifMultiMatch reports the multiMatchTags table.
+func VerifMultiMatch() []bool {
+	out := make([]bool, len(multiMatchTags))
+	copy(out, multiMatchTags[:])
+	return out
+}
